@@ -103,7 +103,7 @@ class C02(Property):
                         break
                     va, vb = b"plainvalue7", rng.choice([b"nv\xff\xfe7", b"caf\xe9.txt", b"\x80\x81", b"ok\xc3"])
                     sps = [(f, nm, it) for f, nm, it in common.spellings(p.chunk.node, va)
-                           if f in ("long_eq", "long_sep", "short_sep") or (f == "short_eq" and len(nm.encode()) == 1)]
+                           if f in ("long_eq", "long_sep", "short_sep", "short_eq")]
                     if not sps:
                         continue
                     form, nm, _ = rng.choice(sps)
@@ -233,9 +233,6 @@ class C02(Property):
         if c.opts is None:
             return False
         cases = [c] + list(f.related)
-        if cls == "short_eq_multibyte":
-            # `-ж=v`, `-жk=v`: a short item containing `=` whose name is longer than one byte
-            return any(self._uses_short_eq_multibyte(x) for x in cases)
         if cls == "short_adj_non_utf8":
             return any(self._uses_short_adj_non_utf8(x) for x in cases)
         if cls == "hidden_short":
